@@ -202,3 +202,81 @@ Proof.
     rewrite (vcmp_antisym (relver (epoch V) (release V ++ [0])) v), (vcmp_antisym v (relver (epoch V) (incl (release V) ++ [0]))).
     destruct (vcmp (relver (epoch V) (release V ++ [0])) v), (vcmp v (relver (epoch V) (incl (release V) ++ [0]))); reflexivity.
 Qed.
+
+(* ---- sets of clauses and || alternatives ---- *)
+Definition cl_mem (c : cut) (k : clause) : bool := match from_pkg k with Ret s => mem c s | _ => false end.
+
+Lemma and_fold_spec cs : forall acc, canon acc -> Forall wf_clause cs ->
+  exists s, and_fold acc cs = Ret s /\ canon s
+    /\ (forall v, final v -> mem (vcut v) s = mem (vcut v) acc && set_sem cs v)
+    /\ (forall c, mem c s = mem c acc && forallb (cl_mem c) cs).
+Proof.
+  induction cs as [|k cs IH]; intros acc Ca W.
+  - exists acc. split; [reflexivity|]. split; [exact Ca|]. split; intros; cbn; rewrite andb_true_r; reflexivity.
+  - inversion W as [|? ? Wk Wcs]; subst. destruct (from_pkg_spec k Wk) as (s1 & E1 & C1 & _ & M1).
+    destruct (spec_and_spec acc s1 Ca C1) as (r & Er & Cr & Mr).
+    destruct (IH r Cr Wcs) as (s & Es & Cs & Mv & Mc).
+    exists s. split.
+    { cbn [and_fold]. rewrite E1. cbn [bind]. change (Corr.P.spec_and acc s1) with (spec_and acc s1). rewrite Er. cbn [bind]. exact Es. }
+    split; [exact Cs|]. split.
+    + intros v Fv. rewrite (Mv v Fv), Mr, (M1 v Fv). unfold set_sem. cbn [forallb]. rewrite andb_assoc. reflexivity.
+    + intros c. rewrite Mc, Mr. cbn [forallb]. unfold cl_mem at 2. rewrite E1, andb_assoc. reflexivity.
+Qed.
+
+Lemma canon_any_range : canon (SRange any_range).
+Proof. split; [apply CO.lt_iff; reflexivity | split; reflexivity]. Qed.
+
+Theorem from_specifierset_spec cs : Forall wf_clause cs ->
+  exists s, from_specifierset cs = Ret s /\ canon s
+    /\ (forall v, final v -> mem (vcut v) s = set_sem cs v)
+    /\ (forall c, SE.pos c -> mem c s = forallb (cl_mem c) cs).
+Proof.
+  intros W. destruct (and_fold_spec cs (SRange any_range) canon_any_range W) as (s & E & C & Mv & Mc).
+  exists s. split; [exact E|]. split; [exact C|]. split.
+  - intros v Fv. rewrite (Mv v Fv). reflexivity.
+  - intros c P. rewrite Mc. cbn [mem]. unfold memr. cbn [lb ub any_range rmin rmax].
+    assert (H1 : cleb NegInf c = true) by (apply cleb_iff, neginf_le).
+    assert (H2 : cltb c PosInf = true) by (apply cltb_iff; exact P).
+    rewrite H1, H2. reflexivity.
+Qed.
+
+Definition alt_mem (c : cut) (a : list clause) : bool := forallb (cl_mem c) a.
+
+Lemma or_fold_spec alts : forall acc, canon acc -> Forall (Forall wf_clause) alts ->
+  exists s, or_fold acc alts = Ret s /\ canon s
+    /\ (forall v, final v -> mem (vcut v) s = mem (vcut v) acc || existsb (fun a => set_sem a v) alts)
+    /\ (forall c, SE.pos c -> mem c s = mem c acc || existsb (alt_mem c) alts).
+Proof.
+  induction alts as [|a alts IH]; intros acc Ca W.
+  - exists acc. split; [reflexivity|]. split; [exact Ca|]. split; intros; cbn; rewrite orb_false_r; reflexivity.
+  - inversion W as [|? ? Wa Walts]; subst. destruct (from_specifierset_spec a Wa) as (s1 & E1 & C1 & M1 & M1c).
+    destruct (spec_or_spec acc s1 Ca C1) as (r & Er & Cr & Mr).
+    destruct (IH r Cr Walts) as (s & Es & Cs & Mv & Mc).
+    exists s. split.
+    { cbn [or_fold]. rewrite E1. cbn [bind]. change (Corr.P.spec_or acc s1) with (spec_or acc s1). rewrite Er. cbn [bind]. exact Es. }
+    split; [exact Cs|]. split.
+    + intros v Fv. rewrite (Mv v Fv), Mr, (M1 v Fv). cbn [existsb]. rewrite orb_assoc. reflexivity.
+    + intros c P. rewrite (Mc c P), Mr, (M1c c P). cbn [existsb]. rewrite orb_assoc. reflexivity.
+Qed.
+
+Definition wf_text (t : stext) : Prop :=
+  match t with TEmpty => True | TAlts alts => alts <> [] /\ Forall (Forall wf_clause) alts end.
+Definition text_sem (t : stext) (v : version) : bool :=
+  match t with TEmpty => false | TAlts alts => existsb (fun a => set_sem a v) alts end.
+Definition text_mem (c : cut) (t : stext) : bool :=
+  match t with TEmpty => false | TAlts alts => existsb (alt_mem c) alts end.
+
+Theorem parse_spec t : wf_text t ->
+  exists s, parse t = Ret s /\ canon s
+    /\ (forall v, final v -> mem (vcut v) s = text_sem t v)
+    /\ (forall c, SE.pos c -> mem c s = text_mem c t).
+Proof.
+  destruct t as [|alts]; intros W.
+  - exists SEmpty. split; [reflexivity|]. split; [exact I|]. split; reflexivity.
+  - destruct W as [Hne W]. destruct alts as [|a alts]; [congruence|].
+    inversion W as [|? ? Wa Walts]; subst. destruct (from_specifierset_spec a Wa) as (s1 & E1 & C1 & M1 & M1c).
+    destruct (or_fold_spec alts s1 C1 Walts) as (s & Es & Cs & Mv & Mc).
+    exists s. split; [cbn [parse]; rewrite E1; exact Es|]. split; [exact Cs|]. split.
+    + intros v Fv. rewrite (Mv v Fv), (M1 v Fv). reflexivity.
+    + intros c P. rewrite (Mc c P), (M1c c P). reflexivity.
+Qed.
